@@ -198,10 +198,9 @@ func c11Alphabet(maxH int, full bool) []c11Sym {
 	for h := 1; h <= maxH; h++ {
 		a = append(a, c11Sym{"close", h}, c11Sym{"read", h}, c11Sym{"write", h}, c11Sym{"readdir", h})
 		if h == 1 {
-			a = append(a, c11Sym{"alias", h})
-		}
-		if full {
-			a = append(a, c11Sym{"fstat", h})
+			a = append(a, c11Sym{"alias", h}, c11Sym{"fstat", h}, c11Sym{"fsetstat", h})
+		} else if full {
+			a = append(a, c11Sym{"fstat", h}, c11Sym{"fsetstat", h})
 		}
 	}
 	return a
@@ -384,6 +383,8 @@ func c11Scenario(s c11Session) explore.Scenario {
 					p = mustPkt(&sshFxpReaddirPacket{ID: id, Handle: hd})
 				case "fstat":
 					p = mustPkt(&sshFxpFstatPacket{ID: id, Handle: hd})
+				case "fsetstat": // attributes set through the handle (permissions only: no effect on the data)
+					p = mustPkt(&sshFxpFsetstatPacket{ID: id, Handle: hd, Flags: sshFileXferAttrPermissions, Attrs: []byte{0, 0, 0x81, 0xa4}})
 				case "stat":
 					p = mustPkt(&sshFxpStatPacket{ID: id, Path: nm("f")})
 				case "statfail": // the lister obtained for the lookup fails in ListAt (os server: missing path)
@@ -433,7 +434,7 @@ func c11Scenario(s c11Session) explore.Scenario {
 					} else if !isStatus || code == sshFxOk {
 						bad = append(bad, fmt.Sprintf("close of handle %q, which is not open, answered %s", hd, f))
 					}
-				case "read", "write", "readdir", "fstat":
+				case "read", "write", "readdir", "fstat", "fsetstat":
 					if !open[hd] {
 						if !isStatus || code == sshFxOk {
 							bad = append(bad, fmt.Sprintf("%s on handle %q, which is closed or was never issued, answered %s", sym.kind, hd, f))
